@@ -18,7 +18,7 @@
 (*                                                                                     *)
 (* Targets are sequences of integers: <<0>> the root target, <<n>> the fresh result of leaf *)
 (* execution n, Append(t, j) item j of t, <<-1, f>> the container built by frame f,          *)
-(* <<-2>> \o t the one-entry dict {'K': t} an mdict feeds to its pattern, <<-3>> its key,      *)
+(* <<-2>> \o t the dict {'K': t} (mdict2: also 'L') an mdict feeds to its pattern, <<-3, e>> key e,      *)
 (* <<-4, f>> the dict a match-dict frame f returns, <<-5, g>> generator g, <<-6>> None,       *)
 (* <<-7>> a string (a dict key).                                                             *)
 (*                                                                                     *)
@@ -46,7 +46,7 @@ CONSTANT Mutant    \* "none": glom as repaired;  otherwise a named deviation of 
 
 N(k, a, c) == [k |-> k, a |-> a, c |-> c]
 
-GlomitKinds == {"new", "same", "copy", "coalskip", "fail", "smiss", "iter", "refdef", "refuse", "vbind", "vset", "vread", "mark", "group", "stop", "probe", "read", "sbind", "abind", "gbind", "gread", "pipe", "coal",
+GlomitKinds == {"new", "same", "copy", "coalskip", "fail", "smiss", "iter", "refdef", "refuse", "vbind", "vset", "vread", "mark", "group", "stop", "nbind", "sbind2", "mdict2", "probe", "read", "sbind", "abind", "gbind", "gread", "pipe", "coal",
                 "or", "and", "not", "switch", "mdict", "auto", "fill", "match", "spec"}
 ModeOf(k) == CASE k = "auto" -> "AUTO" [] k = "fill" -> "FILL" [] k = "match" -> "MATCH" [] k = "group" -> "GROUP"
 ModeKinds == {"auto", "fill", "match", "group"}
@@ -138,7 +138,8 @@ Log(st, rec) == [st EXCEPT !.log = Append(@, rec @@ [at |-> Len(st.acts)])]   \*
 RECURSIVE Run(_, _, _, _, _), RunChain(_, _, _, _, _, _, _), RunAll(_, _, _, _, _, _, _),
           RunCoal(_, _, _, _, _, _), RunOr(_, _, _, _, _, _), RunAnd(_, _, _, _, _, _, _),
           RunSwitch(_, _, _, _, _, _), RunItems(_, _, _, _, _, _, _), RunFillDict(_, _, _, _, _, _),
-          RunGen(_, _, _, _), RunCoalSkip(_, _, _, _, _, _), RunGroup(_, _, _, _, _, _, _)
+          RunGen(_, _, _, _), RunCoalSkip(_, _, _, _, _, _), RunGroup(_, _, _, _, _, _, _),
+          RunMd2(_, _, _, _, _, _, _)
 
 EffMode(st, f) == IF st.frames[f].minmode THEN "ARG" ELSE st.frames[f].mode
 
@@ -181,6 +182,18 @@ Run(st0, par, node, path, tgt) ==
                    c == Len(sc.frames)
                    sd == SetMin(SetMin(sc, c, FALSE), f, FALSE)
                IN Res(Bind(sd, f, node.a, <<"b">> \o path), "ok", tgt, 0, 0)
+          [] node.k = "nbind" ->      \* S(name=Val(None)): a binding whose value is None still is a binding
+               LET sa == SetMin(st2, f, TRUE)
+                   sc == Enter(sa, f, Append(path, 0), tgt)
+                   c == Len(sc.frames)
+                   sd == SetMin(SetMin(sc, c, FALSE), f, FALSE)
+               IN Res(Bind(sd, f, node.a, <<"n">>), "ok", tgt, 0, 0)
+          [] node.k = "sbind2" ->
+               \* S(x=Val(..), y=<reads x>): every value spec is evaluated in the scope as it was BEFORE this
+               \* step; only then are all names bound together
+               LET vy == Resolve(st2.frames, f, "x")
+                   sb == Bind(Bind(st2, f, "x", <<"b">> \o path), f, "y", IF vy.found THEN vy.val ELSE <<"inv">>)
+               IN Res(sb, "ok", tgt, 0, 0)
           [] node.k = "abind" -> Res(Bind(st2, f, node.a, <<"t">> \o tgt), "ok", tgt, 0, 0)
           [] node.k = "gbind" ->
                Res(Act([st2 EXCEPT !.gl = Append(@, <<node.a, <<"t">> \o tgt>>)],
@@ -239,13 +252,20 @@ Run(st0, par, node, path, tgt) ==
                IF rc.out = "err" THEN Res(rc.st, "ok", tgt, 0, 0)
                ELSE Res(NewErr(rc.st, f, 0), "err", tgt, f, rc.st.eid + 1)
           [] node.k = "switch" -> RunSwitch(st2, f, node, path, 1, tgt)
+          [] node.k = "mdict2" ->
+               \* like mdict, with a two-entry dict {'K': target, 'L': target}: per entry the key spec (a child of
+               \* the dict frame, on the key) and then the value spec chained from THAT key's frame
+               LET st3 == Enter(st2, f, Append(path, 0), <<-2>> \o tgt)
+                   d == Len(st3.frames)
+                   inner == RunMd2(st3, d, node, path, 1, tgt, <<>>)
+               IN IF inner.out = "err" THEN Res(Fail(inner.st, d, inner.e), "err", tgt, inner.org, inner.e) ELSE inner
           [] node.k = "mdict" ->
                \* MDict(k, v) wraps the target into {'K': target} and evaluates the raw dict
                \* {k: v}; under MATCH this is the match-dict handler: key spec, then the value
                \* spec chained from it
                LET st3 == Enter(st2, f, Append(path, 0), <<-2>> \o tgt)
                    d == Len(st3.frames)
-                   rk == Run(st3, d, node.c[1], Append(path, 1), <<-3>>)
+                   rk == Run(st3, d, node.c[1], Append(path, 1), <<-3, 1>>)
                    inner ==
                      IF rk.out = "err"
                      THEN Res(NewErr(rk.st, d, 0), "err", tgt, d, rk.st.eid + 1)        \* key didn't match any
@@ -305,6 +325,14 @@ RunGroup(st, f, node, path, j, tgt, last) ==
           ELSE IF r.out = "stop" THEN Res(r.st, "ok", last, 0, 0)
           ELSE RunGroup(r.st, f, node, path, j + 1, tgt, r.res)
 
+RunMd2(st, d, node, path, e, tgt, keys) ==
+  IF e > 2 THEN Res([st EXCEPT !.conts = Append(@, [f |-> d, items |-> keys])], "ok", <<-4, d>>, 0, 0)
+  ELSE LET rk == Run(st, d, node.c[1], Append(path, 1), <<-3, e>>)
+       IN IF rk.out = "err" THEN Res(NewErr(rk.st, d, 0), "err", tgt, d, rk.st.eid + 1)      \* key didn't match any
+          ELSE LET ch == Chain(rk.st, d)
+                   rv == Run(ch.st, ch.s, node.c[2], Append(path, 2), tgt)
+               IN IF rv.out = "err" THEN rv ELSE RunMd2(rv.st, d, node, path, e + 1, tgt, Append(keys, rk.res))
+
 \* Coalesce(..., skip=<rejects every value>): an alternative that returns is skipped like one that raises;
 \* when none is left the CoalesceError is raised here -- possibly after a last alternative that did not raise
 RunCoalSkip(st, f, node, path, i, tgt) ==
@@ -363,7 +391,8 @@ ModeLexical(tree, acts) ==
 \* decides.  The result is the value token the mechanism would log: <<"b">> \o path for S(..) /
 \* Spec(scope=) binders, "t"-marked for A.k (the target it received is dynamic: only the binder's
 \* identity is predicted by the law), <<"inv">> when nothing is visible.
-IsBinderOf(nd, name) == \/ nd.k \in {"sbind", "abind", "spec", "vbind"} /\ nd.a = name
+IsBinderOf(nd, name) == \/ nd.k \in {"sbind", "abind", "spec", "vbind", "nbind"} /\ nd.a = name
+                        \/ nd.k = "sbind2" /\ name \in {"x", "y"}
                         \/ nd.k = "refdef" /\ "ref:" \o nd.a = name
 IsChainAt(tree, pp) ==        \* is the node at path pp a chain of its children?
   LET nd == NodeAt(tree, pp) IN
@@ -374,7 +403,7 @@ EarlierSteps(tree, pp, i) ==
   LET nd == NodeAt(tree, pp) IN
   IF IsChainAt(tree, pp) THEN [j \in 1..(i - 1) |-> i - j]                      \* i-1, i-2, ..., 1
   ELSE IF nd.k = "switch" /\ i % 2 = 0 THEN <<i - 1>>                          \* value spec <- its key spec
-  ELSE IF nd.k = "mdict" /\ i = 2 THEN <<1>>
+  ELSE IF nd.k \in {"mdict", "mdict2"} /\ i = 2 THEN <<1>>
   ELSE <<>>
 RECURSIVE FirstBinder(_, _, _, _, _)
 FirstBinder(tree, pp, steps, name, j) ==
@@ -396,7 +425,16 @@ ReadAgrees(tree, entry, name, callerHas) ==
   LET b == VisibleFrom(tree, entry.p, name) IN
   IF b = <<0>> THEN (IF callerHas THEN entry.v = <<"c">> ELSE entry.v = <<"inv">>)
   ELSE LET nd == NodeAt(tree, b) IN
-       IF nd.k = "abind" THEN Head(entry.v) = "t" ELSE entry.v = <<"b">> \o b
+       IF nd.k = "abind" THEN Head(entry.v) = "t"
+       ELSE IF nd.k = "nbind" THEN entry.v = <<"n">>
+       ELSE IF nd.k = "sbind2" /\ name = "y"
+            THEN \* y was bound to what x resolved to just BEFORE that step
+                 LET bx == VisibleFrom(tree, b, "x") IN
+                 IF bx = <<0>> THEN (IF callerHas THEN entry.v = <<"c">> ELSE entry.v = <<"inv">>)
+                 ELSE IF NodeAt(tree, bx).k = "abind" THEN Head(entry.v) = "t"
+                 ELSE IF NodeAt(tree, bx).k = "nbind" THEN entry.v = <<"n">>
+                 ELSE entry.v = <<"b">> \o bx
+       ELSE entry.v = <<"b">> \o b
 \* Ref(name) evaluates the nearest definition in scope (the log entry carries <<"r">> \o its path)
 RefAgrees(tree, entry, name) ==
   LET b == VisibleFrom(tree, entry.p, "ref:" \o name) IN
